@@ -992,6 +992,13 @@ def tuple_order(I_, op, a, b, st, ctx, k, node):
 
 
 def identity(I_, a, b, st):
+  if isinstance(a, SElem) or isinstance(b, SElem):
+    e, o = (a, b) if isinstance(a, SElem) else (b, a)
+    if o is None and not e.path:
+      v = slist_attr(st, e.ref, "is_none", e.idx)
+      if v is not None:
+        return v
+    raise Unsupported("identity test on an abstract list element (only `is None` with a tracked is_none)")
   if isinstance(a, Union) or isinstance(b, Union):
     u, o = (a, b) if isinstance(a, Union) else (b, a)
     parts = []
@@ -1585,10 +1592,53 @@ def dict_sym_lookup(I_, ref, key, st, ctx, k, node):
   return step(0, st, [], [])
 
 
+def slist_elem_values(I_, st, ref, item):
+  """values of the tracked attributes for a concrete item stored into a symbolic list (tuple / None elements)"""
+  attrs = st.obj(ref).data["attrs"]
+  vals = {}
+  for nm, arr in attrs.items():
+    if nm == "is_none":
+      vals[nm] = item is None
+    elif nm.isdigit():
+      if item is None:
+        vals[nm] = None
+      else:
+        if not isinstance(item, tuple) or int(nm) >= len(item):
+          raise Unsupported("element stored into a symbolic list does not have component " + nm)
+        c = item[int(nm)]
+        vals[nm] = (c.oid if isinstance(c, Ref) else c)
+    else:
+      return None
+  return vals
+
+
 def setitem(I_, obj, idx, v, st, ctx, k, node=None):
   if isinstance(obj, Union):
     return I_.split(obj, st, lambda st2, o: setitem(I_, o, idx, v, st2, ctx, k, node))
   where = I_.where(ctx, node)
+  if isinstance(obj, Ref) and st.obj(obj).kind == "slist":
+    o = st.obj(obj)
+    vals = slist_elem_values(I_, st, obj, v)
+    if vals is None or not is_intlike(idx):
+      raise Unsupported("store into a symbolic list")
+    n = zint(o.data["len"])
+    zi = zint(idx)
+    def cont_sl(st2):
+      o2 = st2.obj(obj)
+      j = concretize(z3.If(zi < 0, zi + n, zi))
+      o2.data["attrs"] = dict(o2.data["attrs"])
+      for nm, val in vals.items():
+        old = o2.data["attrs"][nm]
+        if val is None:
+          val = z3.Const(fresh_name("unset_" + nm), old.sort().range())
+        elif old.sort().range() == z3.BoolSort():
+          val = zbool(val) if not is_sym(val) else val
+        else:
+          val = zint(val)
+        o2.data["attrs"][nm] = z3.Store(old, zint(j), val)
+      return k(st2)
+    return I_.safety(st, z3.And(zi >= -n, zi < n), "safe.index@" + where,
+                     ExcVal(IndexError, ("list assignment index out of range",), where), ctx, cont_sl)
   if isinstance(obj, Ref):
     o = st.obj(obj)
     if o.kind == "list":
@@ -1698,6 +1748,12 @@ def iter_values(I_, v, st, ctx, k, node=None, live_ok=False):
       return I_.raise_exc(st, ctx, TypeError, "object is not iterable", node)
   if isinstance(v, IterVal):
     return k(st, list(v.items))
+  if isinstance(v, SElem) and not v.path:
+    attrs = st.obj(v.ref).data["attrs"]
+    comps = sorted([a for a in attrs if a.isdigit()], key=int)
+    if not comps:
+      raise Unsupported("abstract list element is not a tracked tuple")
+    return k(st, [slist_attr(st, v.ref, a, v.idx) for a in comps])
   if isinstance(v, SBytes):
     n = v.fixed_length()
     if n is None:
